@@ -6,7 +6,7 @@ import paramiko
 import paramiko.auth_handler as _ah
 from paramiko.server import InteractiveQuery
 
-from vf import keys
+from vf import g2kit, keys
 from vf.authkit import (AUTH_FAILED, AUTH_PARTIALLY_SUCCESSFUL, AUTH_SUCCESSFUL, MSG_USERAUTH_INFO_RESPONSE,
                         MSG_USERAUTH_GSSAPI_MIC, MSG_USERAUTH_REQUEST, MSG_USERAUTH_SUCCESS, FenceTimeout, Rd, Sess,
                         Short, episodes, parse_userauth_request, res_name, session_blob, sstr, started, u32, verify_sig)
@@ -161,6 +161,94 @@ def pk_body(user, service, alg, blob, flag, sigfield=None):
     return b
 
 
+# ---------------------------------------------------------------------------
+# round 3: forgery kind x key family x {plain key, certificate} cells
+
+CERT = g2kit.CERT
+FAMILY = {"rsa": "rsa", "ecdsa256": "ecdsa", "ecdsa384": "ecdsa", "ecdsa521": "ecdsa", "ed25519": "ed25519"}
+FAMILIES = ["rsa", "ecdsa", "ed25519"]
+CELL_FORGERIES = ["other_key", "replay_session", "other_user", "other_service", "other_alg", "garbage", "empty",
+                  "truncated"]
+CELL_CLASS = {
+    "other_key": "signature made by another key", "replay_session": "signature made for another session id",
+    "other_user": "signature made for another username", "other_service": "signature made for another service",
+    "other_alg": "signature made for another algorithm name", "garbage": "garbage signature",
+    "empty": "empty signature", "truncated": "truncated signature",
+}
+_CERTS = {}
+
+
+def certs():
+    """kname -> (certificate of the key the application approves, certificate of the other key)."""
+    if not _CERTS:
+        import random
+
+        r = random.Random(14)
+        ca = keys.ed25519(2)
+        for kname, (key, alt, _) in keyset().items():
+            _CERTS[kname] = (g2kit.make_cert(r, key, ca), g2kit.make_cert(r, alt, ca, serial=2))
+    return _CERTS
+
+
+def make_cell_pk(rng, sid, user, kname, base_alg, form, forgery, label, quick=True):
+    """publickey request of one cell: `form` plain|cert (what is presented and named in the request), `forgery`
+    valid or one of CELL_FORGERIES, `label` base|cert (the algorithm name inside the signature blob)."""
+    key, alt, algs = keyset()[kname]
+    if form == "cert":
+        blob, alg = certs()[kname][0], base_alg + CERT
+    else:
+        blob, alg = key.asbytes(), base_alg
+    svc = "ssh-connection"
+
+    def sigbytes(k, data):
+        r = Rd(sign(k, data, base_alg))
+        r.string()
+        return r.string()
+
+    good = session_blob(sid, user, svc, alg, blob)
+    lab = base_alg if label == "base" else base_alg + CERT
+    if forgery == "valid":
+        sb = sigbytes(key, good)
+    elif forgery == "other_key":
+        sb = sigbytes(alt, good)
+    elif forgery == "replay_session":
+        other = rng.choice(_OLD_SIDS[:-1]) if len(_OLD_SIDS) > 1 else rng.randbytes(len(sid))
+        if other == sid:
+            other = rng.randbytes(len(sid))
+        sb = sigbytes(key, session_blob(other, user, svc, alg, blob))
+    elif forgery == "other_user":
+        other = rng.choice([user + "x", "root" if user != "root" else "toor", user.upper()])
+        sb = sigbytes(key, session_blob(sid, other, svc, alg, blob))
+    elif forgery == "other_service":
+        sb = sigbytes(key, session_blob(sid, user, rng.choice(["ssh-userauth", "ssh-connectio", ""]), alg, blob))
+    elif forgery == "other_alg":
+        # the plain <-> certificate counterpart of the requested name (what a signature made for the same key in
+        # the other form carries); thorough also another algorithm of the family
+        cands = [base_alg if form == "cert" else base_alg + CERT]
+        if not quick:
+            cands += [a + sfx for a in algs for sfx in ("", CERT) if a + sfx != alg]
+        sb = sigbytes(key, session_blob(sid, user, svc, rng.choice(cands), blob))
+    elif forgery == "garbage":
+        n = len(sigbytes(key, good))
+        if base_alg.startswith("ecdsa"):
+            # two well-framed random integers (random framing could declare a 4 KiB..1 MiB mpint, see make_pk)
+            half = {"ecdsa-sha2-nistp256": 32, "ecdsa-sha2-nistp384": 48, "ecdsa-sha2-nistp521": 66}[base_alg]
+            sb = sstr(b"\x00" + rng.randbytes(half)) + sstr(b"\x00" + rng.randbytes(half))
+        else:
+            sb = rng.randbytes(n)
+    elif forgery == "empty":
+        sb = b""
+    elif forgery == "truncated":
+        sb = sigbytes(key, good)
+        k = rng.choice([1, 1, 2, rng.randint(1, max(1, len(sb) - 1))])
+        while k < len(sb) and not any(sb[len(sb) - k:]):
+            k += 1
+        sb = sb[:len(sb) - k]
+    else:
+        raise ValueError(forgery)
+    return pk_body(user, svc, alg, blob, True, sstr(lab) + sstr(sb))
+
+
 def make_pk(rng, sid, user, kname, alg, attack):
     """Body of a publickey USERAUTH_REQUEST for the given attack."""
     key, alt, algs = keyset()[kname]
@@ -259,9 +347,65 @@ def draw_policy(rng, focus=None):
     return pol
 
 
+# round 3: callback results outside the three AUTH_* constants.  Descriptors carry ("val", name) tokens (stable
+# fingerprints, JSON-able); build_policy turns them into the real objects.
+def _iq():
+    q = InteractiveQuery("misplaced", "query")
+    q.add_prompt("p: ", False)
+    return q
+
+
+ODD_VALUES = {
+    "None": lambda: None, "True": lambda: True, "False": lambda: False, "int_3": lambda: 3,
+    "int_minus1": lambda: -1, "str_yes": lambda: "yes", "str_empty": lambda: "", "list_empty": lambda: [],
+    "InteractiveQuery": _iq,
+}
+# (the literal 1 is AUTH_PARTIALLY_SUCCESSFUL itself and therefore not in this list)
+ODD_ORDER = ["None", "True", "False", "int_3", "int_minus1", "str_yes", "str_empty", "list_empty", "InteractiveQuery"]
+# callback -> (policy key that carries the value, steps that make paramiko evaluate it with everything else valid)
+ODD_FLOWS = {
+    "check_auth_none": ("check_auth_none", [("none",)]),
+    "check_auth_none(unknown method)": ("check_auth_none", [("unknown_method",)]),
+    "check_auth_password": ("check_auth_password", [("password",)]),
+    "check_auth_publickey": ("check_auth_publickey", [("pk", "ed25519", "ssh-ed25519", "query"),
+                                                      ("pk", "ed25519", "ssh-ed25519", "valid")]),
+    "check_auth_interactive": ("check_auth_interactive", [("kbd_start",), ("info_response",)]),
+    "check_auth_interactive_response": ("kbd_final", [("kbd_start",), ("info_response",)]),
+    "check_auth_gssapi_keyex": ("check_auth_gssapi_keyex", [("gss_keyex", "valid")]),
+    "check_auth_gssapi_with_mic": ("check_auth_gssapi_with_mic", [("gss_mic_start",), ("gss_token",), ("gss_mic",)]),
+}
+IQ_ALLOWED = ("check_auth_interactive", "check_auth_interactive_response")
+
+
+def is_const(v):
+    return isinstance(v, int) and not isinstance(v, bool) and v in (S, P, F)
+
+
+def is_success(v):
+    return is_const(v) and v == S
+
+
+def odd_name(v):
+    """Stable name of a callback result that is not one of the three constants."""
+    if v is None or isinstance(v, bool):
+        return repr(v)
+    if isinstance(v, int):
+        return "int %d" % v if -16 <= v <= 16 else "int"
+    if isinstance(v, (str, bytes, list, tuple, dict)):
+        return "%s%s" % ("empty " if len(v) == 0 else "", type(v).__name__)
+    return type(v).__name__
+
+
+def _resolve(x):
+    if isinstance(x, (tuple, list)) and len(x) == 2 and x[0] == "val":
+        return ODD_VALUES[x[1]]()
+    return x
+
+
 def build_policy(pol):
     """Turn a policy descriptor into LogServer policy entries."""
     state = dict(rounds=0)
+    pol = {k: _resolve(v) for k, v in pol.items()}
 
     def query(n):
         q = InteractiveQuery("round %d" % n, "answer")
@@ -319,6 +463,9 @@ def step_body(rng, sess, user, st):
     svc = "ssh-connection"
     if kind == "pk":
         return MSG_USERAUTH_REQUEST, make_pk(rng, sess.att.att.session_id, user, st[1], st[2], st[3])
+    if kind == "pkc":
+        return MSG_USERAUTH_REQUEST, make_cell_pk(rng, sess.att.att.session_id, user, st[1], st[2], st[3], st[4], st[5],
+                                                  quick=getattr(sess, "quick", True))
     if kind == "none":
         return MSG_USERAUTH_REQUEST, sstr(user) + sstr(svc) + sstr("none")
     if kind == "password":
@@ -390,10 +537,15 @@ def judge_episode(ctx, ep, sid):
         name = CB_FOR.get(method)
         own = cb(name, user) if name else []
         own_any = cb(name) if name else []
-        ok_own = any(c["result"] == S and not isinstance(c["result"], bool) for c in own)
+        ok_own = any(is_success(c["result"]) for c in own)
         if own:
             info["cbstate"] = "%s evaluated but did not return AUTH_SUCCESSFUL" % name if not ok_own else "approved"
             info["cbresult"] = [res_name(c["result"]) for c in own]
+            odd = [c for c in own if not is_const(c["result"]) and not isinstance(c["result"], InteractiveQuery)]
+            odd += [c for c in own if isinstance(c["result"], InteractiveQuery) and name not in IQ_ALLOWED]
+            if odd and not ok_own:
+                info["odd_result"] = odd_name(odd[0]["result"])
+                info["odd_callback"] = name
         elif own_any:
             info["cbstate"] = "%s evaluated for another username" % name
         else:
@@ -439,23 +591,78 @@ def judge_episode(ctx, ep, sid):
             return True, info
         if method not in OWN_ONLY:
             fb = cb("check_auth_none", user)
-            if any(c["result"] == S and not isinstance(c["result"], bool) for c in fb):
+            if any(is_success(c["result"]) for c in fb):
                 info["cbstate"] = "approved via check_auth_none"
                 if method != b"none":
                     ctx.count("approved_via_none_fallback")
                 return True, info
             if fb and not own:
                 info["cbstate"] = "check_auth_none evaluated but did not return AUTH_SUCCESSFUL"
+                odd = [c for c in fb if not is_const(c["result"])]
+                if odd:
+                    info["odd_result"] = odd_name(odd[0]["result"])
+                    info["odd_callback"] = "check_auth_none"
         return False, info
     if t in (MSG_USERAUTH_INFO_RESPONSE, MSG_USERAUTH_GSSAPI_MIC):
         info = dict(kind="continuation(type %d)" % t, method="keyboard-interactive(response)" if t == MSG_USERAUTH_INFO_RESPONSE else "gssapi-with-mic(mic)")
         good = [c for c in cbs if c["name"] in ("check_auth_interactive_response", "check_auth_gssapi_with_mic")]
-        ok = any(c["result"] == S and not isinstance(c["result"], bool) for c in good)
+        ok = any(is_success(c["result"]) for c in good)
         info["cbstate"] = ("approved" if ok else
                            ("%s evaluated but did not return AUTH_SUCCESSFUL" % good[0]["name"] if good
                             else "no callback for the method evaluated"))
+        odd = [c for c in good if not is_const(c["result"])
+               and not (isinstance(c["result"], InteractiveQuery) and c["name"] in IQ_ALLOWED)]
+        if odd and not ok:
+            info["odd_result"] = odd_name(odd[0]["result"])
+            info["odd_callback"] = odd[0]["name"]
         return ok, info
     return False, dict(kind="message type %d" % t, method="-", cbstate="not an authentication request")
+
+
+ODD_CELLS = set()  # (callback, value name, via) seen by this shard
+
+
+def note_odd_results(ctx, ep, granted):
+    """Count every callback evaluation whose result is none of the three constants (and no permitted query)."""
+    rq = parse_userauth_request(ep["msg"]["payload"]) if ep["msg"]["type"] == MSG_USERAUTH_REQUEST else None
+    for c in ep["cbs"]:
+        if not c["name"].startswith("check_auth") or is_const(c["result"]):
+            continue
+        if isinstance(c["result"], InteractiveQuery) and c["name"] in IQ_ALLOWED:
+            continue
+        vn = odd_name(c["result"]).replace(" ", "_")
+        via = "fallback" if c["name"] == "check_auth_none" and rq is not None and rq["method"] != b"none" else "own"
+        ODD_CELLS.add((c["name"], vn, via))
+        ctx.count("odd_result_seen_" + vn)
+        ctx.count("odd_result_from_" + c["name"])
+        ctx.count("odd_results_evaluated")
+        if not granted:
+            ctx.count("odd_results_not_granted")
+
+
+def note_cell(ctx, label, info, granted):
+    """One evaluation of a (family, plain|cert, forgery) cell: the victim read the request, the application
+    approved the key for that user, and the independent verifier agrees with what the cell is meant to be."""
+    _, kname, base_alg, form, forgery, lab = label
+    fam = FAMILY[kname]
+    if info.get("cbstate") != "approved":
+        ctx.count("pkcell_request_read_but_key_not_approved")
+        return
+    valid = bool(info.get("sig_valid"))
+    if forgery == "valid":
+        if not valid:
+            ctx.inconclusive("harness: the genuine %s signature for %s does not verify independently" % (form, base_alg))
+        elif lab == "base":
+            ctx.count("pkcell_%s_%s_valid_%s" % (fam, form, "granted" if granted else "refused"))
+        else:
+            ctx.count("pk_valid_signature_labelled_with_cert_algorithm_%s" % ("granted" if granted else "refused"))
+        return
+    if valid:
+        ctx.inconclusive("harness: the %s forgery for %s %s verifies independently" % (forgery, form, base_alg))
+        return
+    ctx.count("pkcell_%s_%s_%s" % (fam, form, forgery))
+    ctx.count("pkcell_label_" + lab)
+    ctx.count("pkcell_forgeries_" + ("GRANTED" if granted else "refused"))
 
 
 def analyse(ctx, sess, desc, labels, auth_samples, name_samples=()):
@@ -485,6 +692,10 @@ def analyse(ctx, sess, desc, labels, auth_samples, name_samples=()):
         if not needs and m["type"] not in (MSG_USERAUTH_REQUEST, MSG_USERAUTH_INFO_RESPONSE, MSG_USERAUTH_GSSAPI_MIC):
             continue
         ok, info = judge_episode(ctx, ep, sid)
+        note_odd_results(ctx, ep, bool(grants))
+        lab0 = labels.get(m["seq"])
+        if lab0 and lab0[0] == "pkc" and info.get("kind") == "request" and info.get("method") == "publickey":
+            note_cell(ctx, lab0, info, bool(grants))
         if ok:
             approved_upto.append(m["n"])
             ctx.count("approved_episodes")
@@ -533,11 +744,21 @@ def analyse(ctx, sess, desc, labels, auth_samples, name_samples=()):
                           "the GSS context rejected (or never saw a valid) MIC, yet the application's approval alone "
                           "produced USERAUTH_SUCCESS", wit)
         elif info.get("method") == "publickey" and info["cbstate"] == "approved":
-            cls = "no signature attached" if info.get("sig_attached") is False else \
-                ATTACK_CLASS.get(label[3] if label and label[0] == "pk" else "", "signature does not verify")
+            if label and label[0] == "pkc":
+                cls = CELL_CLASS.get(label[4], "signature does not verify") + \
+                    (" [certificate algorithm]" if label[3] == "cert" else "")
+            else:
+                cls = "no signature attached" if info.get("sig_attached") is False else \
+                    ATTACK_CLASS.get(label[3] if label and label[0] == "pk" else "", "signature does not verify")
             ctx.violation("publickey granted without a valid signature: %s" % cls,
                           "check_auth_publickey approved the key but the request carried no signature that verifies "
                           "over this session's id, user, service, algorithm and key", wit)
+        elif info.get("odd_result") is not None:
+            ctx.count("grants_on_odd_result_method_" + info.get("method", "?"))
+            ctx.violation("USERAUTH_SUCCESS after a callback result outside the AUTH_* constants (%s)" % info["odd_result"],
+                          "%s returned %s, which is none of AUTH_SUCCESSFUL / AUTH_PARTIALLY_SUCCESSFUL / AUTH_FAILED, "
+                          "and the client was authenticated (method %s)"
+                          % (info["odd_callback"], info["odd_result"], info.get("method")), wit)
         else:
             ctx.violation("grant without approval: method=%s, %s" % (info.get("method"), info["cbstate"]),
                           "USERAUTH_SUCCESS was sent although no application callback for that user and method "
@@ -576,6 +797,7 @@ def run_session(ctx, rng, desc):
         return
     try:
         v = sess.victim
+        sess.quick = ctx.quick
         _OLD_SIDS.append(bytes(v.session_id))
         del _OLD_SIDS[:-8]
         if desc.get("service_request", True):
@@ -679,13 +901,48 @@ def run(ctx):
                                         check_auth_interactive=S, kbd_final=S, check_auth_gssapi_keyex=S,
                                         check_auth_gssapi_with_mic=S, enable_auth_gssapi=True, kex_ctx="ok"),
                              first=[("gss_keyex", mk)], no_tail=True))
+    # round 3 (a): forgery kind x key family x {plain, certificate} x signature label; the application approves
+    # the key, the signature is the only decider; each session ends with the genuine login
+    refuse_rest = dict(check_auth_publickey=S, check_auth_none=F, check_auth_password=F, check_auth_interactive=F,
+                       kbd_final=F, check_auth_gssapi_keyex=F, check_auth_gssapi_with_mic=F)
+    cell_reps = ctx.pick(1, 3)
+    ci = 0
+    for rep in range(cell_reps):
+        for (kname, alg) in KEY_ALGS:
+            for form in ("plain", "cert"):
+                for lab in ("base", "cert"):
+                    k = (ctx.seed + ci) % len(CELL_FORGERIES)
+                    order = CELL_FORGERIES[k:] + CELL_FORGERIES[:k]
+                    steps = [("pkc", kname, alg, form, f, lab) for f in order] + [("pkc", kname, alg, form, "valid", lab)]
+                    if lab == "cert":
+                        steps.append(("pkc", kname, alg, form, "valid", "base"))
+                    plan.append(dict(kind="pk-cell", key=(kname, alg), focus=dict(refuse_rest), first=steps,
+                                     no_tail=True, exact=True, shard_key=ci))
+                    ci += 1
+    # round 3 (b): every auth callback x results outside the three constants
+    oi = 0
+    n_odd_cells = 0
+    for rep in range(cell_reps):
+        for cbname, (polkey, steps) in ODD_FLOWS.items():
+            for vn in ODD_ORDER:
+                if vn == "InteractiveQuery" and cbname in IQ_ALLOWED:
+                    continue
+                focus = dict(refuse_rest, check_auth_publickey=F, enable_auth_gssapi=True, kex_ctx="ok", kbd_rounds=0)
+                if cbname == "check_auth_interactive_response":
+                    focus["check_auth_interactive"] = "Q"
+                focus[polkey] = ("val", vn)
+                plan.append(dict(kind="odd-result", focus=focus, first=list(steps), no_tail=True, exact=True,
+                                 shard_key=oi, odd=(cbname, vn)))
+                oi += 1
+                if rep == 0:
+                    n_odd_cells += 1
     n_random = ctx.pick(100, 2400)
     for i in range(n_random):
         plan.append(dict(kind="random"))
     deadline = ctx.deadline(150, 1200)
     shown = 0
     for i, p in enumerate(plan):
-        if not ctx.mine(i):
+        if not ctx.mine(p.get("shard_key", i)):
             continue
         if time.time() > deadline:
             ctx.count("sessions_not_run_time_cap")
@@ -700,12 +957,18 @@ def run(ctx):
         if p.get("no_tail"):
             extra = []
         after = draw_steps(rng, rng.randint(0, 2), kname, alg)  # requests after (a possible) success
+        if p.get("exact"):
+            after = []
         desc = dict(kind=p["kind"], user=rng.choice(["u", "alice", "root"]), key=[kname, alg], policy=pol,
                     steps=[list(s) for s in first + extra + tail + after],
-                    service_request=rng.random() < 0.93)
+                    service_request=True if p.get("exact") else rng.random() < 0.93)
+        if p.get("odd"):
+            desc["odd"] = list(p["odd"])
         if shown < 3 and p["kind"] in ("pk-focus", "kbd-rounds-focus", "random"):
             desc["sample"] = True
             shown += 1
+        if p["kind"] in ("pk-cell", "odd-result") and p.get("shard_key") == ctx.shard:
+            desc["sample"] = True  # one of each new kind per shard (Ctx keeps at most four)
         ctx.count("sessions")
         try:
             run_session(ctx, rng, desc)
@@ -724,3 +987,19 @@ def run(ctx):
     ctx.require("gss_mic_checks_independent", 20)
     ctx.require("gss_mic_valid", 10)
     ctx.require("gss_invalid_mic_sent_to_approving_application", 8)
+    # round 3 floors: every cell of the forgery matrix and of the odd-result matrix must have been evaluated
+    ctx.count("odd_result_cells_evaluated", len(ODD_CELLS))
+    per_family = {"rsa": 6, "ecdsa": 6, "ed25519": 2}  # algorithms of the family x 2 signature labels
+    for fam in FAMILIES:
+        for form in ("plain", "cert"):
+            for f in CELL_FORGERIES:
+                ctx.require("pkcell_%s_%s_%s" % (fam, form, f), per_family[fam] * cell_reps)
+            ctx.require("pkcell_%s_%s_valid_granted" % (fam, form), per_family[fam] * cell_reps)
+    ctx.require("pkcell_label_base", 28 * len(CELL_FORGERIES) // 2 * cell_reps)
+    ctx.require("pkcell_label_cert", 28 * len(CELL_FORGERIES) // 2 * cell_reps)
+    ctx.require("odd_result_cells_evaluated", n_odd_cells)
+    for cbname in ("check_auth_none", "check_auth_password", "check_auth_publickey", "check_auth_interactive",
+                   "check_auth_interactive_response", "check_auth_gssapi_keyex", "check_auth_gssapi_with_mic"):
+        ctx.require("odd_result_from_" + cbname, 8 * cell_reps)
+    for vn in ("None", "True", "False", "int_3", "int_-1", "str", "empty_str", "empty_list", "InteractiveQuery"):
+        ctx.require("odd_result_seen_" + vn, 5 * cell_reps)
